@@ -45,6 +45,9 @@ type Record struct {
 	Sched  map[string][]int `json:"sched,omitempty"`
 	// FromSeed: regenerate the case from (Seed, Index) instead of replaying streams
 	FromSeed bool `json:"from_seed,omitempty"`
+	// GoMaxProcs of the worker that found the case (the simulation does not depend on it, code
+	// that reads runtime.GOMAXPROCS would); the driver replays under the same value
+	GoMaxProcs int `json:"gomaxprocs,omitempty"`
 
 	// filled in on failure
 	Sig      string         `json:"signature,omitempty"`
